@@ -12,17 +12,15 @@ use vkit::cbor;
 use vkit::ledger::{self, Tx};
 use vkit::rng::Rng;
 
-pub struct BState {
-    pub ring: KeyRing,
+/// the key ring is derived once per process (shard)
+static RING: std::sync::OnceLock<KeyRing> = std::sync::OnceLock::new();
+
+pub fn init(_ctx: &mut Ctx) {
+    let _ = ring_static();
 }
 
-pub fn init(ctx: &mut Ctx) {
-    ctx.state = Some(Box::new(BState { ring: KeyRing::new() }));
-}
-
-pub fn ring(ctx: &Ctx) -> &'static KeyRing {
-    let st = ctx.state.as_ref().unwrap().downcast_ref::<BState>().unwrap();
-    unsafe { &*(&st.ring as *const KeyRing) }
+pub fn ring(_ctx: &Ctx) -> &'static KeyRing {
+    ring_static()
 }
 
 pub fn detail(o: &Outcome) -> serde_json::Value {
@@ -477,12 +475,9 @@ pub fn c09_monitor(ctx: &mut Ctx, o: &Outcome, tx: &Tx, _ring: &KeyRing) {
     }
 }
 
-static mut RING_PTR: Option<&'static KeyRing> = None;
-pub fn set_ring_static(r: &'static KeyRing) {
-    unsafe { RING_PTR = Some(r) }
-}
+pub fn set_ring_static(_r: &'static KeyRing) {}
 fn ring_static() -> &'static KeyRing {
-    unsafe { RING_PTR.expect("ring") }
+    RING.get_or_init(KeyRing::new)
 }
 
 // ------------------------------------------------------------------------------------------------ C10
